@@ -144,6 +144,8 @@ type rewriter struct {
 	inSelect  map[ast.Node]bool // communication nodes of select clauses, rewritten together with their select
 	needVtime bool
 	timeName  string // local name of the "time" import of the file, "" if none
+	runtimeName     string
+	needRuntimeKeep bool
 	ioName    string // local name of the "io" import of the file, "" if none
 	needVio   bool
 	errs      []string
@@ -408,6 +410,24 @@ func (r *rewriter) rewriteFile(f *ast.File) bool {
 				}
 			}
 		case *ast.SelectorExpr:
+			if r.feat.sched {
+				if id, ok := n.X.(*ast.Ident); ok {
+					if pn, ok := r.info.Uses[id].(*types.PkgName); ok && pn.Imported().Path() == "runtime" {
+						switch n.Sel.Name {
+						case "SetFinalizer", "Gosched":
+							// finalizers run when the harness declares the object dropped (csched.Drop), on a
+							// scheduler thread of their own; Gosched is a pure scheduling point
+							r.runtimeName = id.Name
+							n.X = ast.NewIdent("csched")
+							r.needCS = true
+							r.needRuntimeKeep = true
+							r.sites++
+						case "AddCleanup":
+							r.errorf(n, "runtime.AddCleanup (not modelled)")
+						}
+					}
+				}
+			}
 			if r.feat.sched && r.ioName != "" {
 				if id, ok := n.X.(*ast.Ident); ok {
 					if pn, ok := r.info.Uses[id].(*types.PkgName); ok && pn.Imported().Path() == "io" {
@@ -668,6 +688,12 @@ func (r *rewriter) rewriteFile(f *ast.File) bool {
 		f.Decls = append(f.Decls, &ast.GenDecl{Tok: token.VAR, Specs: []ast.Spec{&ast.ValueSpec{
 			Names: []*ast.Ident{ast.NewIdent("_")}, Type: sel(r.ioName, "Reader")}}})
 		r.needVio = false
+	}
+	if r.needRuntimeKeep {
+		// keep the runtime import used
+		f.Decls = append(f.Decls, &ast.GenDecl{Tok: token.VAR, Specs: []ast.Spec{&ast.ValueSpec{
+			Names: []*ast.Ident{ast.NewIdent("_")}, Type: sel(r.runtimeName, "Error")}}})
+		r.needRuntimeKeep = false
 	}
 	if r.needVtime {
 		astutil.AddNamedImport(r.fset, f, "vtime", modPath+"/zverif/vtime")
